@@ -35,9 +35,14 @@ def _task(job):
             rec["rejected"] = "INTERNAL " + str(e)[:80]
             return rec
         T = tv.TV(c)
-        T.run()
-        if _CTX.get("post"):
-            _CTX["post"](T, rec)
+        try:
+            T.run()
+        finally:
+            if _CTX.get("post"):
+                try:
+                    _CTX["post"](T, rec)
+                except Exception as e:
+                    rec.setdefault("post_error", repr(e))
         nrep = 0
         for r in T.results:
             if r.verdict == "refuted" and r.family in _CTX["families"] and r.secs != 0.0 and nrep < 8:
@@ -133,6 +138,9 @@ def run(prop, families, level, explanation, optsets=None, programs=None, extra=N
         label = f"{rec['prog']} [{' '.join(rec['flags'])}]"
         if rec["error"]:
             rep.undecided_ob(f"{prop}/csem/{label}", f"{rec['error'][0]}: {rec['error'][1][:300]}")
+            for item in rec.get("extra") or []:
+                if item[0] == "refuted":
+                    rep.failed_ob(Finding(prop, f"{prop}/{label}/{item[1]}", f"{rec['prog']}|{' '.join(rec['flags'])}|{item[1]}", f"{label}: {item[2]}", replay=item[3], replayed=item[4]))
             continue
         if rec["rejected"]:
             rep.notes.append(f"{label}: rejected by the compiler ({rec['rejected']})") if len(rep.notes) < 40 else None
